@@ -68,6 +68,10 @@ func ScenarioByName(name string) *Scenario {
 		sc = LateWitness(arg(1))
 	case "unheard":
 		sc = Unheard(arg(1), arg(2), arg(3), arg(4), arg(5), arg(6))
+	case "staticr":
+		sc = StaticR(arg(1), arg(2))
+	case "later":
+		sc = LateWitnessR(arg(1), arg(2))
 	case "returning":
 		sc = Returning(arg(1), arg(2), arg(3))
 	case "commitfault":
